@@ -52,13 +52,43 @@ def check_case(case):
     return e1oracles.oracle_c03(case, obs, res, ref)
 
 
+def repeated_interruption_cases(names, step, js):
+    """An interruption at callback k of the call, then a second one j callbacks into the resume (i.e. while the
+    first rewind is being replayed or shortly after it, usually inside the same checkpoint interval)."""
+    for name in names:
+        n = corpus.n_handles(name)
+        for k in range(0, n, step):
+            for j in js:
+                for first, second in (("pause", "pause"), ("pause", "suspend"), ("suspend", "pause")):
+                    c = corpus.base_case(name)
+                    c.pop("probe", None)
+                    i1 = {"at": k, "do": first}
+                    i2 = {"at": j, "do": second}
+                    for i in (i1, i2):
+                        if i["do"] == "suspend":
+                            i["release_after"] = 0.3
+                    if first == "pause":
+                        c["stages"] = [{"do": "call", "inj": [i1]}, {"do": "resume", "inj": [i2]}, {"do": "resume"}, {"do": "resume"}]
+                    else:
+                        # the suspension releases by itself; the pause lands j callbacks after the suspension request
+                        i2["at"] = k + 4 + j
+                        c["stages"] = [{"do": "call", "inj": [i1, i2]}, {"do": "resume"}, {"do": "resume"}]
+                    yield c
+
+
 def run(ctx):
-    names = [n for n in corpus.corpus_names(ctx.tier) if n not in ("nonresumable", "engine_closes")]
+    skip = ("nonresumable", "engine_closes", "nonresumable_toggles", "pause_msg", "pause_msg_nonresumable", "defer_msg", "defer_msg_nonresumable")
+    names = [n for n in corpus.corpus_names(ctx.tier) if n not in skip]
     cases = list(corpus.single_request_cases(names, ("pause", "suspend", "defer"), decisions=("resume",), probe=False))
     if ctx.quick:
         cases = [c for i, c in enumerate(cases) if i % 2 == ctx.seed % 2]
+    rep = list(repeated_interruption_cases(["count2", "custom_ck"] if ctx.quick else ["count2", "custom_ck", "scan3", "nested_keys"], ctx.pick(3, 1), ctx.pick((2, 5, 9, 14), tuple(range(0, 24, 2)))))
+    if ctx.quick:
+        rep = [c for i, c in enumerate(rep) if i % 2 == ctx.seed % 2]
+    cases += rep
     ctx.sweep(cases, check_case)
     ctx.extra["sweep_cases"] = len(cases)
+    ctx.extra["repeated_interruption_cases"] = len(rep)
     e1common.generated(ctx, check_case, n=ctx.pick(500, 20000), profile="replay_data")
 
 
